@@ -49,6 +49,18 @@ CLAIMED = {
   "integers (expression evaluation itself is C14). All theorems closed under the global context.",
   "Coq proof (induction over argument lists; dict-update lemmas) + model/implementation correspondence by vm_compute",
   "DESIGN.md §6 C27"),
+ "C26": (
+  "Coq theorems about Gallina models of the translation filters' placeholder substitution, the translate tag's message construction "
+  "(percent doubling, variable collection with the repaired pattern, printf formatting) and plural selection: a filter message without "
+  "placeholders is output unchanged for every text (any percent signs); in a message of placeholder-free text pieces and placeholders exactly "
+  "the placeholders are replaced; for EVERY block of characters and variables the tag's build-and-format pipeline returns the text with "
+  "variables substituted (whole pipeline incl. normalisation proved for whitespace-free blocks: _partial; whitespace collapse by "
+  "correspondence only); plural form = NullTranslations rule for every integer count; the pre-fix code refuted by witnesses. Tied to /repo "
+  "by exhaustive small messages/blocks/counts through all five filters and the tag, evaluated in Coq, plus a regex-based reference substitution.",
+  "Trusted: Coq kernel+vm_compute; harness generators/printers; Python re, str.strip, % formatting with a mapping and gettext.NullTranslations "
+  "are modelled, not verified; \\w and \\s restricted to ASCII; autoescape off (C05). All theorems closed under the global context.",
+  "Coq proof (structural scanners with skip counters, induction over messages) + model/implementation correspondence by vm_compute",
+  "DESIGN.md §6 C26"),
 }
 
 PENDING_REASON = "not yet built in this round (planned: DESIGN.md §6/§9); no check is claimed for it yet"
